@@ -401,7 +401,9 @@ func (r *run) callSSA(caller *frame, callpos token.Pos, fn *ssa.Function, args [
 			return r.callSSA(caller, callpos, m, margs, nil)
 		}
 		if ext := intrinsics[name]; ext != nil {
-			return ext(fr, args)
+			if v := ext(fr, args); v != notIntrinsic {
+				return v
+			}
 		}
 		if fn.Pkg != nil {
 			if h := r.eng.pkgHandler(fn); h != nil {
